@@ -80,7 +80,9 @@ def cases(draw):
             e = ["nothing"]
         elif k == 2:
             e = ["const", draw(st.sampled_from(
-                ["'a;b'", "'x & y'", "'1 < 2'", "';'", "'a & b;c'"]))]
+                ["'a;b'", "'x & y'", "'1 < 2'", "';'", "'a & b;c'",
+                 # text that looks like an entity is text
+                 "'&lt;'", "'x &amp; y'", "'&#38;'", "'&quot;q&quot;'"]))]
         elif k == 3:
             e = ["pipe", [["var", "missing"], ["default"]]]
         elif k == 4:
